@@ -252,8 +252,8 @@ pub fn run(run: &mut Run) {
     run.technique = "proptest random search with shrinking; differential oracle = Arithmetic on ln x / 1/x computed with the same primitives (<= 2 ulp), AM-GM-HM chain; exhaustive placement of non-positive values at every position of valid data with a state snapshot".into();
     run.rule = "strictly positive samples (f32/f64, n 2..2000, dynamic range up to 2^±40, near-constant) x confidences x 3 call styles; non-positive value from {0, -0, -tiny, -1, -inf, -1e300} at every position of valid data of lengths 0..6 (and sampled positions in longer data) for Geometric and Harmonic; non-trivial = non-constant positive data outside the straddle class, and every rejection case".into();
     let (cases, shards, max_n) = match run.tier {
-        crate::engine::Tier::Quick => (16_000u32, 16usize, 1000usize),
-        crate::engine::Tier::Thorough => (320_000, 64, 5000),
+        crate::engine::Tier::Quick => (80_000u32, 32usize, 1000usize),
+        crate::engine::Tier::Thorough => (3_200_000, 256, 5000),
     };
     let seed = run.seed_for("positive", 0);
     run.par(shards, |shard, obs| {
